@@ -94,8 +94,9 @@ func sceneRespond(o ReqOpts) {
 		tax := sdk.NewDecFromInt(fee).Mul(vf.Params(ctx).ServiceFeeTax).TruncateInt()
 		net := fee.Sub(tax)
 		chk("C02 C01", col1.Sub(s.Collector0).Equal(tax), "tax-is-floor-of-fee-times-rate")
-		chk("C02 C13", earned1.AmountOf(Denom).Sub(s.Earned0[0]).Equal(net), "provider-earns-fee-minus-tax")
-		chk("C13", ownerEarned1.AmountOf(Denom).Sub(ownerEarned0).Equal(net), "owner-earns-the-same")
+		// (C20: a withdrawal subtracts the provider's record from the owner's total and panics if that went negative)
+		chk("C02 C13 C20", earned1.AmountOf(Denom).Sub(s.Earned0[0]).Equal(net), "provider-earns-fee-minus-tax")
+		chk("C13 C20", ownerEarned1.AmountOf(Denom).Sub(ownerEarned0).Equal(net), "owner-earns-the-same")
 		chk("C01 C02", s.Esc0.Sub(esc1).Equal(tax), "escrow-releases-only-tax")
 		chk("C02", balC1.Equal(s.BalC0), "consumer-untouched-on-good-response")
 		chk("C04 C03", vf.All(b0.Deposit.AmountOf(Denom).Equal(s.Binds[0].Deposit), b0.Available == s.Binds[0].Available, b0.DisabledTime.Equal(s.Binds[0].DisabledTime)), "no-slash-on-good-response")
